@@ -207,6 +207,7 @@ class Ctx:
         entry = {"name": name, "ok": bool(ok), "key": key, "cvc5": agree}
         if not ok:
             entry["counterexample"] = {str(d): str(model[d]) for d in model.decls()} if model is not None else {}
+            entry["replayed"] = self._replay_model(eng, pc, claim, model)
             if info:
                 entry["info"] = info
         self.lemmas.append(entry)
@@ -218,6 +219,25 @@ class Ctx:
                 l["count"] = l.get("count", 1) + 1
                 return True
         return False
+
+    def _replay_model(self, eng, pc, claim, model):
+        """model-level replay: pin every symbolic input / environment answer to the counterexample's value and
+        re-decide the lemma on that single concrete point; it must still be violated"""
+        import z3
+        if model is None:
+            return False
+        pins = []
+        for d in model.decls():
+            if d.arity() == 0:
+                try:
+                    pins.append(d() == model[d])
+                except Exception:
+                    pass
+        try:
+            sat, _ = eng.check(list(pc) + pins + [z3.Not(claim)])
+        except Exception:
+            return False
+        return bool(sat)
 
     def fail(self, name, detail, key=None, info=None):
         if self._dup(name, False, key):
@@ -301,6 +321,6 @@ class Ctx:
             r["counterexample"] = bad[0].get("counterexample")
             r["lemma"] = bad[0]["name"]
             r["bad_keys"] = sorted(set(l.get("key") or l["name"] for l in bad))
-            r["replayed"] = True   # model-level: the SMT model is a concrete assignment for the MIR path
+            r["replayed"] = all(l.get("replayed", True) for l in bad)   # structural lemmas have no solver model to pin
             r["how"] = "re-run ./check %s --only %s; the counterexample is the solver model for the MIR path condition" % (self.spec.get("prop", "?"), self.spec["name"])
         return r
